@@ -294,6 +294,10 @@ def text_ratio_exact(ck: Checker, rule: str) -> None:
     for x in cmps:
         floor = any(isinstance(y, ast.BinOp) and isinstance(y.op, ast.FloorDiv) for y in ast.walk(x))
         consts = [y.value for y in ast.walk(x) if isinstance(y, ast.Constant) and isinstance(y.value, (int, float)) and not isinstance(y.value, bool)]
+        # a module-level constant standing for the threshold (`MAX_NONTEXT_RATIO = 0.30`)
+        for y in ast.walk(x):
+            if isinstance(y, ast.Name) and y.id in fn.module.consts and isinstance(fn.module.consts[y.id], ast.Constant) and isinstance(fn.module.consts[y.id].value, (int, float)):
+                consts.append(fn.module.consts[y.id].value)
         div = any(isinstance(y, ast.BinOp) and isinstance(y.op, ast.Div) for y in ast.walk(x))
         thr_ok = (isinstance(x.ops[0], ast.LtE) and div and any(abs(float(c) - 0.30) < 1e-12 for c in consts)) or (isinstance(x.ops[0], ast.Gt) and div and any(abs(float(c) - 0.30) < 1e-12 for c in consts))
         ck.require(not floor and thr_ok, rule, fn, x, "text means: non-text share <= 0.30, compared exactly (true division)",
